@@ -25,6 +25,7 @@ var (
 	errLongResourcepart   = errors.New("the resourcepart must be smaller than 1024 bytes")
 	errNoLocalpart        = errors.New("the localpart must be larger than 0 bytes")
 	errNoResourcepart     = errors.New("the resourcepart must be larger than 0 bytes")
+	errTrailingDot        = errors.New("the domainpart must not end in an empty label")
 )
 
 // JID represents an XMPP address (Jabber ID) comprising a localpart,
@@ -440,6 +441,16 @@ func normalizeDomainpart(domainpart string) (string, error) {
 	domainpart, err = idna.Display.ToUnicode(domainpart)
 	if err != nil {
 		return domainpart, err
+	}
+
+	// ToUnicode maps the other label separators recognized by IDNA (such as
+	// the ideographic full stop U+3002) to ".", and a domainpart that ended in
+	// more than one separator still ends in one after the final dot was
+	// stripped above.
+	// Such a result is not canonical: its string form would be stripped again
+	// the next time it is parsed and compare unequal to this JID, so reject it.
+	if strings.HasSuffix(domainpart, ".") {
+		return domainpart, errTrailingDot
 	}
 
 	if l := len(domainpart); l < 1 || l > 1023 {
